@@ -254,7 +254,85 @@ class C19(Cfg):
         return "ZTS:" + " ".join(ans.split()[:2])
 
 
-REGISTRY = {c.__name__: c for c in (C01, C03, C04, C05, C13, C14, C15, C16, C17, C18, C19)}
+class C07(Cfg):
+    rule = ("READ <storage> <filter> <schedule> <stream>: streams of 0..5 well-formed messages (some mutated), truncations at "
+            "arbitrary offsets, hostile LEN (0..5, 65535), noise; schedules: all-at-once, 1 byte at a time, random chunk "
+            "sizes, bursts of Interrupted, chunk boundaries inside the 4-byte header, huge chunks; the crate reads through "
+            "a Read implementation that fragments/interrupts per schedule; non-trivial = stream non-empty and schedule "
+            "non-empty; distinct by request")
+    observable = "sequence of per-call results (item with all fields | filtered n | error class | PANIC) until end of stream"
+    explanation = ("C07_refines: for every schedule the model reader equals Spec.readStream (cut at declared lengths, parse "
+                   "each piece); C07_readExact: read_exact contract for every schedule; C07_complete_prefix. Oracle on the "
+                   "crate: same result as with the unfragmented source, no panic; Spec oracle: cut-and-parse")
+    assumptions = COMMON_ASSUME + ["std::io::BufReader and Read::read_exact are represented by the abstract buffered source "
+                                   "(Model/Reader.lean); capacity 10 MiB never limits an inner read (streams are smaller)"]
+
+    def nontrivial(self, req, ans, m=None):
+        t = req.split()
+        return hexlen(t[-1]) > 0 and " 0 x" not in req[-(len(t[-1]) + 4):]
+
+    def classify(self, req, ans, m=None):
+        items = ans.split(" ; ")
+        kinds = sorted(set(i.split(" ")[0] + ("" if i.split(" ")[0] != "E" else ":" + i.split(" ")[1]) for i in items))
+        return req.split(" ", 1)[0] + ":" + ",".join(kinds)
+
+    def spec_ok(self, req, ans, spec):
+        return ans == spec
+
+
+class C08(C07):
+    rule = ("AREAD <storage> <filter> <schedule> <stream>: the C07 streams; schedules interleave Poll::Pending and "
+            "Ready(k bytes) arbitrarily; the crate reads through an AsyncRead that returns Pending (and wakes itself) per "
+            "schedule under futures::executor::block_on; non-trivial = stream and schedule non-empty; distinct by request")
+    explanation = ("C08_equal: async reader = blocking reader = Spec.readStream for all schedules (poll-loop state machine "
+                   "re-polled by an abstract executor). Oracle on the crate: async sequence == blocking sequence on the same "
+                   "bytes (Rust vs Rust, incl. the error variant), no panic. Partial: wakers / the real executor / "
+                   "futures BufReader internals are exercised, not proved")
+
+
+class C09(Cfg):
+    rule = ("FILT <storage> <config> <bytes>: configurations with each criterion absent/present, empty and non-empty id "
+            "vectors with duplicates, level numbers 0..255, counts around the number of distinct ids; messages over a small "
+            "id alphabet with all MSTP/MTIN incl. invalid levels, ECU id absent, no extended header, some mutated; "
+            "non-trivial = the unfiltered parse yields a message; distinct by request")
+    observable = "(class of unfiltered parse, class of filtered parse incl. marker payload length, kept message and remainder identical?)"
+    explanation = ("C09_filter / C09_decision: for all byte strings the filtered parse is the unfiltered one with the marker "
+                   "substituted exactly when Spec.drops (numeric config) says so; Spec oracle evaluated on the crate")
+
+    def nontrivial(self, req, ans, m=None):
+        return ans.startswith("ITEM")
+
+    def classify(self, req, ans, m=None):
+        return "FILT:" + re.sub(r"FILTERED:\d+", "FILTERED", ans)
+
+    def spec_ok(self, req, ans, spec):
+        return spec == "na" or ans == spec
+
+
+class C10(Cfg):
+    rule = ("STATS <storage> <part lengths> <merge expression> <stream>: streams of 0..60 well-formed messages over a "
+            "7-id alphabet (collisions), all level codes, non-log types, missing ECU ids, no extended header; split at "
+            "random message boundaries into 1..5 parts; random permutation and merge-tree shape, optionally below "
+            "StatisticInfo::new(); non-trivial = at least 2 messages and 2 parts; distinct by request")
+    observable = "sorted (id, 8 counters) lists for ECU / application / context ids and the non-verbose flag of the merged result"
+    explanation = ("C10_tally, C10_total, C10_nonverbose, C10_merge_any_tree (any permutation, any tree) over the model; "
+                   "Spec oracle = independent countP tally of the whole stream; crate oracle: merged parts == whole, ECU "
+                   "totals == number of collector calls")
+    assumptions = COMMON_ASSUME + ["FxHashMap modelled as association list; usize counters as Nat"]
+
+    def nontrivial(self, req, ans, m=None):
+        t = req.split()
+        return int(t[2]) >= 2 and hexlen(t[-1]) > 40
+
+    def classify(self, req, ans, m=None):
+        t = req.split()
+        return "STATS:parts=%s:%s" % (t[2], ans.split(" ", 1)[0])
+
+    def spec_ok(self, req, ans, spec):
+        return re.sub(r" n=\d+$", "", spec) == ans
+
+
+REGISTRY = {c.__name__: c for c in (C01, C03, C04, C05, C07, C08, C09, C10, C13, C14, C15, C16, C17, C18, C19)}
 
 
 def get(prop):
